@@ -222,12 +222,12 @@ def c2_rootlist(fb, rep):
                 if t.get('k') == 'call' and t.get('recv') is not None and (ap(t['recv']) or show(t['recv'])) == _src:
                     nm = cname(t).split('::')[-1]
                     if nm == 'size':
-                        return ('v', 3 if nonempty else 0)
+                        return ('v', nonempty)
                     if nm == 'empty':
                         return ('v', 0 if nonempty else 1)
                 return None
             return leaf
-        ok = 'searchMoves' in show(arg0) and G.excluded_under(st, b, lst(False)) and not G.excluded_under(st, b, lst(True))
+        ok = 'searchMoves' in show(arg0) and G.excluded_under(st, b, lst(0)) and not any(G.excluded_under(st, b, lst(k_)) for k_ in (1, 2, 3, 40))
         rep.ob(clause, 'K4 guard', 'startThread restricts the root list to the given searchmoves', ok, R.site(st, e), 'guards %s' % g, st.sname)
         w = st.path_avoiding((b, i), lambda x: x is not None and (gen(x) or fil(x)), R.never)
         rep.ob(clause, 'K2 must-precede', 'startThread: the searchmoves restriction is the last operation on the list', w is None, R.site(st, e), '', st.sname)
